@@ -13,6 +13,14 @@ def main():
         names = [n for n in names if n in a.only.split(",")]
     spec = {"tier": a.tier, "itypes": ["exterior_facet", "interior_facet", "vertex"], "rel": REL_STRICT, "options": STRICT_OPTS, "all_ids": True}
     run_cases(chk, "vlib.formcheck", "run_form", names, spec, a.jobs)
+    # grammar-generated forms (deterministic in VERIF_SEED): widen the bounded corpus of programs
+    from vlib import randforms
+    nrand = 16 if a.tier == "quick" else 240
+    rnames = [randforms.name_of(chk.seed, i) for i in range(nrand)]
+    if not a.only:
+        run_cases(chk, "vlib.formcheck", "run_form", rnames, spec, a.jobs)
+        chk.sample(randforms.describe(rnames[0]))
+        chk.extra["random_forms"] = nrand
     if a.tier == "thorough":
         spec2 = dict(spec, rel=REL_DEFAULT, options={})
         run_cases(chk, "vlib.formcheck", "run_form", names, spec2, a.jobs)
